@@ -31,7 +31,7 @@ G4STUB_PARTICLE(G4Electron, "e-", 0.51099891, -1.0, ElectronDefinition)
 G4STUB_PARTICLE(G4Positron, "e+", 0.51099891, +1.0, PositronDefinition)
 G4STUB_PARTICLE(G4Alpha, "alpha", 3727.379, +2.0, AlphaDefinition)
 
-struct G4StubPrimary { const G4ParticleDefinition * def; G4ThreeVector momentum; double time; G4ThreeVector position; };
+struct G4StubPrimary { const G4ParticleDefinition * def; G4ThreeVector momentum; double time; G4ThreeVector position; G4ThreeVector polarization; };
 struct G4Event { std::vector<G4StubPrimary> primaries; };
 
 class G4ParticleGun
@@ -43,6 +43,11 @@ public:
   virtual ~G4ParticleGun() = default;
   void SetParticleDefinition(G4ParticleDefinition * d) { particle_definition = d; }
   void SetParticleTime(G4double t) { particle_time = t; }
+  // what an application (or the /gun/ commands every G4ParticleGun registers) may set between two events
+  void SetNumberOfParticles(G4int n) { NumberOfParticlesToBeGenerated = n; }
+  void SetParticlePolarization(G4ThreeVector p) { particle_polarization = p; }
+  void SetParticleEnergy(G4double e) { particle_energy = e; }
+  void SetParticleCharge(G4double c) { particle_charge = c; }
   void SetParticlePosition(G4ThreeVector p) { particle_position = p; }
   // Geant4: direction = p.unit(), |p| stored, kinetic energy derived from the mass of the current definition
   void SetParticleMomentum(G4ParticleMomentum p)
@@ -54,7 +59,7 @@ public:
   void GeneratePrimaryVertex(G4Event * ev)
   {
     if (!particle_definition) return; // Geant4 throws a G4Exception and generates nothing
-    for (int i = 0; i < NumberOfParticlesToBeGenerated; i++) ev->primaries.push_back({particle_definition, full_momentum, particle_time, particle_position});
+    for (int i = 0; i < NumberOfParticlesToBeGenerated; i++) ev->primaries.push_back({particle_definition, full_momentum, particle_time, particle_position, particle_polarization});
   }
 protected:
   G4int NumberOfParticlesToBeGenerated = 1;
